@@ -27,7 +27,11 @@ from typing import (
 from x690.types import ObjectIdentifier
 
 from puresnmp.credentials import V3
-from puresnmp.exc import InvalidResponseId, SnmpError
+from puresnmp.exc import (
+    FaultySNMPImplementation,
+    InvalidResponseId,
+    SnmpError,
+)
 from puresnmp.typevars import TAnyIp
 from puresnmp.varbind import VarBind
 
@@ -263,6 +267,12 @@ def tablify(
     for oid, value in varbinds:
         if num_base_nodes:
             tail = oid.nodes[num_base_nodes:]
+            if not tail:
+                # A device which answers with the OID of the table (or its
+                # entry) itself. There is no column this could belong to.
+                raise FaultySNMPImplementation(
+                    f"The OID {oid} is not a cell of the requested table!"
+                )
             col_id_nodes, row_id_nodes = tail[0], tail[1:]
             col_id = str(col_id_nodes)
             row_id = ".".join([str(node) for node in row_id_nodes])
